@@ -212,6 +212,7 @@ def make_model_class():
             self.events = []
             self.reqlog = []
             self.seq = 0
+            self.again_done = set()
             if self.extra_construct is not None:
                 self.extra_construct(self)
             self._actions(self.prog["root"], -1)
@@ -335,6 +336,12 @@ def make_model_class():
                 elif kind == "cancel":
                     if self.events:
                         sim.cancel_event(self.events[a[1] % len(self.events)])
+                elif kind == "again":
+                    # the handler hands the very event object that is being carried out to schedule_event once more
+                    # (its time is the current time): it is carried out a second time
+                    if 0 <= cur < len(self.events) and cur not in self.again_done:
+                        self.again_done.add(cur)
+                        sim.schedule_event(self.events[cur])
                 elif self.extra_action is not None:
                     self.extra_action(self, a)
 
@@ -695,6 +702,7 @@ class RefSim:
         self.order = 0
         self.ended = False
         self.warmups = []
+        self.again_done = set()
         self._actions(self.p["root"], -1)
         # the warm-up event: scheduled after construct_model with MAX priority
         w = [self.warm, -10, self.order, None, "W"]
@@ -745,6 +753,11 @@ class RefSim:
                         self.labels.add("cancel-pending")
                     else:
                         self.labels.add("cancel-not-pending")
+            elif k == "again":
+                if 0 <= cur < len(self.events) and cur not in self.again_done:
+                    self.again_done.add(cur)
+                    self.pending.append(self.events[cur])
+                    self.labels.add("event-object-scheduled-again")
             elif self.extra_action is not None:
                 self.extra_action(self, a)
 
